@@ -98,6 +98,10 @@ theorem starved_step {P : Params} {s : St} (I : Inv P s) (h : Starved P s) (c : 
     simp only [step]; split
     · exact ⟨hp, ⟨m, hm, hpc, by simpa [pendFor] using hlt⟩, hl, hnc, hw⟩
     · exact ⟨hp, ⟨m, hm, hpc, hlt⟩, hl, hnc, hw⟩
+  | spawnStray =>
+    simp only [step]; split
+    · exact ⟨hp, ⟨m, hm, hpc, by simpa [pendFor] using hlt⟩, hl, hnc, hw⟩
+    · exact ⟨hp, ⟨m, hm, hpc, hlt⟩, hl, hnc, hw⟩
   | death =>
     simp only [step]; split
     · exact ⟨hp, ⟨m, hm, hpc, by simpa [pendFor] using hlt⟩, hl, hnc, hw⟩
@@ -114,6 +118,15 @@ theorem starved_step {P : Params} {s : St} (I : Inv P s) (h : Starved P s) (c : 
       split <;> simp_all <;> omega
     · exact ⟨hp, ⟨m, hm, hpc, hlt⟩, hl, hnc, hw⟩
   | other =>
+    simp only [step]; split
+    · next hc =>
+      refine ⟨hp, ⟨m, hm, hpc, ?_⟩, hl, by simpa using hnc, hw⟩
+      simp at hc
+      simp only [pendFor, hc.2] at hlt
+      simp only [pendFor, mkPending]
+      split <;> simp_all
+    · exact ⟨hp, ⟨m, hm, hpc, hlt⟩, hl, hnc, hw⟩
+  | strayTrace =>
     simp only [step]; split
     · next hc =>
       refine ⟨hp, ⟨m, hm, hpc, ?_⟩, hl, by simpa using hnc, hw⟩
@@ -178,7 +191,9 @@ theorem helperStuck_step {P : Params} {s : St} {w : Nat} (I : Inv P s) (h : Help
   | fire => apply frame <;> (simp only [step]; split <;> rfl)
   | startTrace => apply frame <;> (simp only [step]; split <;> rfl)
   | other => apply frame <;> (simp only [step]; split <;> rfl)
+  | strayTrace => apply frame <;> (simp only [step]; split <;> rfl)
   | birth => apply frame <;> (simp only [step]; split <;> rfl)
+  | spawnStray => apply frame <;> (simp only [step]; split <;> rfl)
   | death => apply frame <;> (simp only [step]; split <;> rfl)
   | call =>
     simp only [step]
@@ -356,12 +371,17 @@ theorem tracerStuck_step {P : Params} {s : St} {j k : Nat} (I : Inv P s) (h : Tr
     simp only [step]; split
     · exact ⟨⟨hp, ⟨t0, ks0, hpe⟩, ⟨mk, hmk, hkpc, hfull⟩, hl, ⟨mj, hmj, hjpc⟩, hw⟩, by first | rfl | trivial⟩
     · first | exact keep | exact ⟨keep.1, trivial⟩ | exact keep.1
+  | spawnStray =>
+    simp only [step]; split
+    · exact ⟨⟨hp, ⟨t0, ks0, hpe⟩, ⟨mk, hmk, hkpc, hfull⟩, hl, ⟨mj, hmj, hjpc⟩, hw⟩, by first | rfl | trivial⟩
+    · first | exact keep | exact ⟨keep.1, trivial⟩ | exact keep.1
   | death =>
     simp only [step]; split
     · exact ⟨⟨hp, ⟨t0, ks0, hpe⟩, ⟨mk, hmk, hkpc, hfull⟩, hl, ⟨mj, hmj, hjpc⟩, hw⟩, by first | rfl | trivial⟩
     · first | exact keep | exact ⟨keep.1, trivial⟩ | exact keep.1
   | startTrace => simp only [step, hpn]; simp; first | exact keep | exact ⟨keep.1, trivial⟩ | exact keep.1
   | other => simp only [step, hpn]; simp; first | exact keep | exact ⟨keep.1, trivial⟩ | exact keep.1
+  | strayTrace => simp only [step, hpn]; simp; first | exact keep | exact ⟨keep.1, trivial⟩ | exact keep.1
 
 theorem tracerStuck_run {P : Params} {s : St} {j k : Nat} (I : Inv P s) (h : TracerStuck P s j k) (sched : List Choice) :
     TracerStuck P (run P s sched) j k ∧ (run P s sched).log = s.log := by
